@@ -3,4 +3,4 @@
 set -e
 cd "$(dirname "$0")"
 cp ../coq/model.ml ../coq/model.mli .
-ocamlfind ocamlopt -O2 -w -a -package str model.mli model.ml sexp.ml conv.ml schema_conv.ml driver.ml -o modelrun
+ocamlfind ocamlopt -O2 -w -a -package str model.mli model.ml sexp.ml conv.ml schema_conv.ml driver_infer.ml driver.ml -o modelrun
